@@ -28,8 +28,14 @@ def HARDENED : Nat := Gen.Bip32.HARDENED_OFFSET
 def isWs (c : Char) : Bool :=
   c.toNat == 32 || (9 ≤ c.toNat && c.toNat ≤ 13) || (28 ≤ c.toNat && c.toNat ≤ 31) || c.toNat == 133 || c.toNat == 160
 
+/-- what `int()` skips around the number: the same set WITHOUT \x1c-\x1f (CPython: `str.strip()` drops the four
+    separators, `int()` does not accept them) -/
+def isWsInt (c : Char) : Bool := isWs c && !(28 ≤ c.toNat && c.toNat ≤ 31)
+
+def stripBy (p : Char → Bool) (s : List Char) : List Char := ((s.dropWhile p).reverse.dropWhile p).reverse
+
 /-- `str.strip()` -/
-def strip (s : List Char) : List Char := ((s.dropWhile isWs).reverse.dropWhile isWs).reverse
+def strip (s : List Char) : List Char := stripBy isWs s
 
 /-- `str.split(sep)` -/
 def splitOn (sep : Char) : List Char → List (List Char)
@@ -60,7 +66,7 @@ def signBody (s : List Char) : Bool × List Char :=
 
 /-- Python's `int(s)` (base 10) on Latin-1 text -/
 def pyInt (s : List Char) : Option Int :=
-  let sb := signBody (strip s)
+  let sb := signBody (stripBy isWsInt s)
   if validBodyAux false sb.2 then
     let v : Nat := Nat.ofDigitChars 10 (sb.2.filter (· ≠ '_')) 0
     some (if sb.1 then - (v : Int) else v)
